@@ -153,3 +153,26 @@ contract(f"{MG}::PseudonymManager.add_credential", "add_credential.stores-throug
                   "implies(result is not None, len(calls('database.insert_metadata')) == 1)"],
          note="every accepted token / metadata goes through insert_* (each proved above to commit before returning, for every value of "
               "every parameter it has)")
+
+# ---------------------------------------------------------------------------------------------------------------------
+# reopening: EVERY stored token is back in the rebuilt tree, whatever their number and the (unordered) sequence in which the database
+# returns them.  gather_token does not promise that (a token may have to wait in a bounded buffer), so a loader must not depend on it.
+TOK = lambda: OBJ("ipv8/attestation/tokentree/token.py::Token", previous_token_hash=BYTES_N(32), content_hash=BYTES_N(32),  # noqa: E731
+                  signature=BYTES, content=OPT(BYTES), _hash=BYTES_N(32))
+for _n in (0, 1, 2, 3):
+    contract(f"{MG}::PseudonymManager.__init__", f"reload.every-stored-token-is-back[{_n}]",
+             vars={"r1": TOK(), "r2": TOK(), "r3": TOK(), "pk": PK, "PM": EXPR(f"resolve_class('{MG}::PseudonymManager')"),
+                   "dbe": EFFECT("database", get_tokens_for={"returns": EXPR(f"[r1, r2, r3][:{_n}]")},
+                                 get_credentials_for={"returns": EXPR("[]")})},
+             requires=["r1._hash != r2._hash and r1._hash != r3._hash and r2._hash != r3._hash"],
+             call="PM(dbe, pk)", raises=[],
+             stubs={"ipv8/attestation/tokentree/tree.py::TokenTree.gather_token": {
+                 "event": "gather", "returns": "token if uf_bool('insertable_now', token._hash) else None",
+                 "effects": ["self.elements.update({token._hash: token} if uf_bool('insertable_now', token._hash) else {})"],
+                 "note": "C16 contract of gather_token: inserts only a verified token whose parent is present, otherwise the token waits "
+                         "(bounded buffer) or is dropped"},
+                    "ipv8/keyvault/keys.py::Key.key_to_hash": {"returns": "bytes", "note": "sha1 of the key (A6), used for a log line"}},
+             ensures=[f"all(t._hash in result.tree.elements and result.tree.elements[t._hash] is t for t in [r1, r2, r3][:{_n}])",
+                      f"len(result.tree.elements) == {_n}", "result.database is dbe", "len(calls('database.get_tokens_for')) == 1"],
+             bounded=f"{_n} stored tokens (hashes, pointers, signatures symbolic)",
+             note="the rebuilt pseudonym holds exactly the stored tokens")
